@@ -231,7 +231,12 @@ func genLayer(t *tape.Tape, o LayerOpts) Layer {
 	if o.Tagged {
 		for i, n := 0, 1+t.Choose(2, "hdr.tagged.n"); i < n; i++ {
 			var v *refcbor.Item
-			switch t.Choose(6, "hdr.tagged.kind") {
+			switch t.Choose(7, "hdr.tagged.kind") {
+			case 6:
+				// a map keyed by timestamps, one of them written as a tagged
+				// epoch time next to the plain number
+				n := int64(t.Choose(3, "hdr.tagged.timekey"))
+				v = refcbor.Map(refcbor.Int(n), refcbor.Int(0), refcbor.Tag(1, refcbor.Int(n)), refcbor.Int(0))
 			case 5:
 				v = genBignum(t)
 			case 0:
